@@ -75,7 +75,8 @@ class FakeSock:
     def __init__(self, tls, peer, name):
         self.tls, self.peer, self.name = tls, peer, name
         self.sends, self.recvs = [], []
-        self.calls = 0
+        self.calls = self.n_send = self.n_recv = 0
+        self.on_close = None
         self.accepted = bytearray()     # bytes the kernel took, in order
         self.delivered = bytearray()    # bytes the kernel handed out, in order
         self.connect_result = errno.EINPROGRESS
@@ -88,6 +89,7 @@ class FakeSock:
 
     def send(self, data):
         self.calls += 1
+        self.n_send += 1
         if not self.sends:
             self.misuse.append("send without scripted answer")
             raise self._block()
@@ -100,6 +102,7 @@ class FakeSock:
 
     def recv(self, bufsize):
         self.calls += 1
+        self.n_recv += 1
         if not self.recvs:
             raise self._block()
         a = self.recvs.pop(0)
@@ -137,6 +140,8 @@ class FakeSock:
         pass
 
     def close(self):
+        if not self.closed and self.on_close:
+            self.on_close(self)
         self.closed = True
 
     def fileno(self):
